@@ -5,7 +5,7 @@ result of ra[index] is compared with the same selectors applied to the plain lis
 (kind, cells, order, grouping) and foreign ids are decoded for the witness."""
 import itertools
 import numpy as np
-from ..core import CTX, attempt, held, violated, peek, short
+from ..core import CTX, attempt, held, violated, undefined, peek, short
 from .. import gen, model, contracts
 
 PROP = "C02"
@@ -32,7 +32,7 @@ ANCHORS = [
     "raggedshape.py::RaggedView2._calculate_lengths",
     "raggedshape.py::build_indices",
 ]
-RECVS = ["fresh", "lazyrows", "lazycols+2", "lazycols-1", "lazychain", "ufunc", "astype", "deepcopy", "pickle", "copy-of-lazy", "readonly", "saveload", "concat", "fromnumpy", "fromnumpy-F", "tonumpy-called", "subclass", "was-argument", "byteswapped"]
+RECVS = ["fresh", "lazyrows", "lazycols+2", "lazycols-1", "lazychain", "ufunc", "astype", "deepcopy", "pickle", "copy-of-lazy", "readonly", "saveload", "concat", "fromnumpy", "fromnumpy-F", "tonumpy-called", "subclass", "was-argument", "byteswapped", "unsafe", "ctype-alias"]
 FLOOR_TAGS = ["recv:" + r_ for r_ in RECVS] + ["mask-as-list", "r:int", "r:slice+1", "r:slice+k", "r:slice-", "r:list", "r:array", "r:mask", "r:ell",
               "c:none", "c:int+", "c:int-", "c:slice+1", "c:slice+k", "c:slice-",
               "must-refuse", "sel-has-empty-row", "ellipsis-padded", "e-first", "e-last", "e-mid", "e-consec", "allempty", "norows"]
@@ -82,6 +82,13 @@ def build_receiver(recv, flat, lens):
             x = RA(flat.copy(), list(lens))
             x.to_numpy_array()
             return x, None
+        return RA(flat.copy(), list(lens)), None
+    if recv == "unsafe":            # built with the public safe_mode=False switch: refusals are off by design, everything legal must still be right
+        return RA(flat.copy(), list(lens), safe_mode=False), None
+    if recv == "ctype-alias":       # the same element type under its other C name (np.longlong is 64-bit like np.int64, but a different type object)
+        alias = {"int64": "longlong", "uint64": "ulonglong", "int32": "intc", "uint32": "uintc"}.get(flat.dtype.name)
+        if alias and np.dtype(alias).itemsize == flat.dtype.itemsize and np.dtype(alias).char != flat.dtype.char:
+            return RA(flat.astype(alias), list(lens)), None
         return RA(flat.copy(), list(lens)), None
     if recv == "subclass":          # an instance of a user subclass
         return _subclass()(flat.copy(), list(lens)), None
@@ -216,6 +223,8 @@ def run(case):
     for x, b4 in zip((rs, cs), arg_before):
         if b4 is not None and not (x.shape == b4.shape and np.array_equal(x, b4)):
             return violated("indexing with %s modified the caller's index array: it now reads %s" % (short(b4), short(x)), tags + ["argument-mutated"])
+    if refused and recv == "unsafe":
+        return undefined("refusals are switched off for this receiver (safe_mode=False)", tags)
     if refused:
         CTX.tick("c02:refusal")
         if out.ok:
